@@ -76,6 +76,11 @@ CHECKS = {
          'Held on N inputs: fmt is idempotent on every byte string and preserves the token sequence of every parseable input (apart from the recorded lone-CR finding); the round-trip and expanded-text laws hold on the core generator profile, and their failures elsewhere are matched against the recorded findings by diagnostic signature.',
          'Trusts the position-free tree rendering (c18Norm) and the token comparison (NEWLINE tokens compared as adjacency only; leading blank lines and the final newline are layout). The expand/compact laws are fully sensitive only on the core profile; outside it three recorded findings cover whole diagnostic classes.',
          'DESIGN.md §3 C18'),
+ 'C12': ('exploration',
+         'probe-provider invocation monitor + crash monitor: every method name x spelling x call form x argument vector, through interpreter.CallMethod and from GlyphLang source with the provider injected; real in-memory providers driven the same way',
+         'Held on the enumerated matrix (about 1900 name/spelling/form jobs x up to 160 argument vectors): no method outside the allow-list was ever invoked, whatever the spelling or call form, allow-listed ones were, and no argument vector made a provider call panic or kill the process.',
+         'The allow-list is read from the running code (IsProviderMethodAllowed fallback list). llm.Handler is not driven; the HTTP handler gets a reduced argument set (no network in the sandbox).',
+         'DESIGN.md §3 C12'),
 }
 NA = {}
 for p in props:
